@@ -88,6 +88,9 @@ def rule1_who(ctx, fl):
     ctx.floor('C12.1', 12)
 
 
+STOPS2 = ('myth_queue_push', 'myth_queue_pop', DESC_FREE, STACK_FREE, 'myth_get_current_env_noinline', 'myth_tls_tree_fini') + lib.SPIN_STOPS
+
+
 def rule2_order(ctx, v):
     ctx.doc('C12.2', 'myth_entry_point_1/_2: stack release first (callback arg2 = finished thread), record release only on '
             'the detached edge, after the unlock; myth_detach_body: detached is set with th->lock held on the '
@@ -118,6 +121,18 @@ def rule2_order(ctx, v):
             ctx.ob('C12.2', cbn + ': no access to the record after releasing it', not late,
                    'nothing touches the finished thread\'s record after it was recycled', loc=(late[0].loc if late else d.loc))
         ctx.ob('C12.2', cbn + ': at most one record release', len(df) == 1, 'single record release site', loc=c.loc)
+        # joinable edge: the store status = FREE_READY2 hands the record to the joiner, which recycles it without taking the
+        # lock again; the unlock right behind the store is the last access the finisher may make (hand mutant r6)
+        pub = [st for st in c.stores_to(TH + 'status') if c.sources(c.ap(st.ops[1]).root) == c.sources('a1')]
+        ctx.ob('C12.2', cbn + ': publishes FREE_READY2', bool(pub), 'the joinable edge stores the final status', loc=c.loc)
+        for st in pub:
+            lastu = [u for u in uns if u in c.reachable_from(st)]
+            after = [i for u in lastu for i in c.reachable_from(u) if i.op in ('load', 'store') and
+                     c.sources(c.ap(i.ptr).root) == c.sources('a1') and c.ap(i.ptr).fields]
+            # accesses reachable from the store that precede the unlock are checked by C01.6 (status before unlock)
+            ctx.ob('C12.2', cbn + ': the record is not touched after it was handed to the joiner', bool(lastu) and not after,
+                   'once FREE_READY2 is visible and the lock released a joiner on another worker may recycle the record and a new '
+                   'thread may own it: a late read or write by the finisher lands in that thread', loc=(after[0].loc if after else st.loc))
     d = ctx.need_fn(v, 'myth_detach_body')
     la = LockAnalysis(d)
     keys = la.keys_matching(TH + 'lock')
@@ -139,7 +154,7 @@ def rule2_order(ctx, v):
         ctx.ob('C12.2', 'myth_detach_body: releases th', same_value(d, fr.args[1], 'a0'), 'the record released is th', loc=fr.loc)
     for r in d.exits():
         ctx.ob('C12.2', 'myth_detach_body: unlocked at return', not la.held_may(r), 'no lock held at return', loc=r.loc)
-    ctx.floor('C12.2', 18)
+    ctx.floor('C12.2', 22)
 
 
 ENV_TY = '%struct.myth_running_env*'
@@ -614,8 +629,7 @@ def run(ctx):
     for fl in flavours(ctx):
         ctx.unit = fl
         ctx.attempt(rule1_who, ctx, fl)
-        stops = ('myth_queue_push', 'myth_queue_pop', DESC_FREE, STACK_FREE, 'myth_get_current_env_noinline',
-                 'myth_tls_tree_fini') + lib.SPIN_STOPS
+        stops = STOPS2
         v = ctx.view(NATIVE, roots=['myth_entry_point_1', 'myth_entry_point_2', 'myth_detach_body'], stops=stops, flavour=fl)
         ctx.attempt(rule2_order, ctx, v)
         ctx.attempt(rule3_env, ctx, fl)
@@ -649,6 +663,8 @@ def run(ctx):
 SCHED = 'src/myth_sched_func.h'
 MISC = 'src/myth_misc_func.h'
 MUTANTS = [
+    {'name': 'finisher touches its record after publishing FREE_READY2 and unlocking (hand mutant r6)', 'expect': 'C12.2',
+     'edits': [('src/myth_sched_func.h', "    this_thread->status=MYTH_STATUS_FREE_READY2;\n    myth_spin_unlock_body(&this_thread->lock);\n#endif\n  }\n  env->this_thread = next_thread;", "    this_thread->status=MYTH_STATUS_FREE_READY2;\n    myth_spin_unlock_body(&this_thread->lock);\n#endif\n    if (this_thread->cancelled) this_thread->cancelled = 0;\n  }\n  env->this_thread = next_thread;")]},
     {'name': 'size-class index rounded down (seed5 C12/m2)', 'expect': 'C12.4',
      'edits': [(MISC, "#define MYTH_MALLOC_SIZE_TO_INDEX(s) (32-__builtin_clz((s)-1))", "#define MYTH_MALLOC_SIZE_TO_INDEX(s) (31-__builtin_clz((unsigned int)(s)))")]},
     {'name': 'th->stack recorded after the hint was carved off the stack top (seed4 C13/m2)', 'expect': 'C12.4',
